@@ -5,6 +5,7 @@ import Dcg.Proofs.CoverOp
 import Dcg.Proofs.Types
 import Dcg.Proofs.ClassTie
 import Dcg.Model.FieldText
+import Dcg.Proofs.FieldStr
 /-
 C02 — emitted modules execute: every name is bound before it is needed.
 Only property theorems live here; helper lemmas are in Dcg/Proofs/Imports.lean (and
@@ -457,6 +458,103 @@ theorem field_imports_cover (v : Dcg.Model.FieldText.V) :
     ∀ n ∈ Dcg.Model.FieldText.memberUses v, n ∈ Dcg.Model.FieldText.imports v := by
   obtain ⟨a, e, f, u, k⟩ := v
   cases a <;> cases e <;> cases f <;> cases u <;> cases k <;> decide
+
+/-! ### `DataModelField.__str__` of the five field classes: the names its text reads are bound
+
+`Model.FieldStr` computes, from an abstract field state (required, nullable, default kind, is any
+keyword argument written, `use_annotated`, `use_default_kwarg`, what `default_factory` is, …), the
+shape of `str(field)` and the names it reads, `.field` / `.annotated`, the library part of `.imports`
+and the member branch of the class template. The three facts `Model.FieldText` used to read off the
+real text are now computed (`Pyd.toV`). Campaign `field/model imports vs rendered text` compares
+every function with the real field objects of all five kinds. -/
+
+open Dcg.Model.FieldStr Dcg.Proofs.FieldStr in
+/-- pydantic v1-style and v2, EVERY field state: every name the class template writes for the member
+besides its type hint — `Field`, `Annotated`, and what a `default_factory=` argument names — is
+among the library imports of the same field (`IMPORT_FIELD`, `IMPORT_ANNOTATED`) or is the factory
+itself (data: the text of `extras["default_factory"]`, or the class of the member's type in
+`lambda :Cls.parse_obj(...)`; bound as a builtin / by class order, hypotheses (i)/(iii) above). -/
+theorem pydantic_field_names_bound (s : Pyd) :
+    ∀ n ∈ Pyd.memberNames s, n ∈ Pyd.imports s ∨ n ∈ (Pyd.factory s).names :=
+  Dcg.Proofs.FieldStr.pyd_bound s
+
+open Dcg.Model.FieldStr Dcg.Proofs.FieldStr in
+/-- non-vacuity: `Field(default_factory=lambda :Pet.parse_obj({'a': 1}), alias='x')` reads `Field`
+and `Pet`; `Field` is imported, `Pet` is the factory's class. With `use_annotated` the same state
+writes `Annotated[…, Field(alias='x')]`: the factory is not written at all. -/
+example :
+    let s : Pyd := { required := false, nullable := false, useAnnotated := false, useDefaultKwarg := false, otherArgs := true, defaultNotNone := true, extrasFactory := none, modelFactory := some ['P', 'e', 't'] }
+    Pyd.str s = ⟨.call .factory, [Dcg.Model.FieldText.nField, ['P', 'e', 't']]⟩ ∧
+    Pyd.imports s = [Dcg.Model.FieldText.nField] ∧
+    Pyd.memberNames { s with useAnnotated := true } = [Dcg.Model.FieldText.nAnnotated, Dcg.Model.FieldText.nField] ∧
+    Pyd.imports { s with useAnnotated := true } = [Dcg.Model.FieldText.nField, Dcg.Model.FieldText.nAnnotated] := by
+  decide
+
+open Dcg.Model.FieldStr Dcg.Proofs.FieldStr in
+/-- dataclasses, EVERY field state: `field(...)` is written exactly when `dataclasses.field` is among
+the member's imports (the coupling the seeded regression C02-a breaks); the only other name the text
+reads is a `default_factory` out of `extras`. A bare `repr(default)` reads no name. -/
+theorem dataclass_field_names_bound (s : Dc) :
+    ∀ n ∈ Dc.memberNames s, n ∈ Dc.imports s ∨ n ∈ (Dc.factory s).toList :=
+  Dcg.Proofs.FieldStr.dc_bound s
+
+open Dcg.Model.FieldStr Dcg.Proofs.FieldStr in
+/-- non-vacuity: a list default becomes `field(default_factory=lambda :['a'])`: `field` is read and imported -/
+example :
+    let s : Dc := { required := false, defaultSet := true, defaultListOrDict := true, extrasFactory := none, otherKeys := false }
+    Dc.memberNames s = [nfield] ∧ Dc.imports s = [nfield] ∧
+    Dc.memberNames { s with defaultListOrDict := false } = [] ∧ Dc.imports { s with required := true } = [] := by
+  decide
+
+open Dcg.Model.FieldStr Dcg.Proofs.FieldStr in
+/-- FULL STATEMENT for msgspec (kept visible; FALSE of the code, `msgspec_annotated_optional_unbound`) -/
+def MsgspecFieldNamesBound : Prop :=
+  ∀ s : Ms, ∀ n ∈ Ms.memberNames s, n ∈ Ms.imports s ∨ n ∈ (Ms.factory s).names ∨ n = nList
+
+open Dcg.Model.FieldStr Dcg.Proofs.FieldStr in
+/-- msgspec, PARTIAL: under `msOptionalOK` (decidable: NOT (`.annotated` is written, the member is not
+required, not a class variable, typing spelling, and `nullable == False`) — `.annotated` wraps in
+`Optional[…]` by requiredness, `.imports` asks for `Optional` by nullability) every name the member's `field(...)` and its
+`Annotated[…, Meta(…)]` / `Optional[…]` / `ClassVar[…]` wrapper read — `field`, `convert`, `Meta`,
+`Annotated`, `Optional`, `ClassVar` — is among the imports of the same field (`import_extender` and
+the base class), or is the factory (the text out of `extras`, the struct class in
+`lambda: convert(…, type=Cls)`), or the builtin `list`. -/
+theorem msgspec_field_names_bound_partial (s : Ms) (h : msOptionalOK s = true) :
+    ∀ n ∈ Ms.memberNames s, n ∈ Ms.imports s ∨ n ∈ (Ms.factory s).names ∨ n = nList :=
+  Dcg.Proofs.FieldStr.ms_bound s h
+
+open Dcg.Model.FieldStr Dcg.Proofs.FieldStr in
+/-- non-vacuity: `v: Optional[Annotated[List[Pet], Meta(description='d')]] = field(default_factory=lambda: convert([…], type=list[Pet]), name='x')`,
+nullable by default: the hypothesis holds, six library names are read and imported -/
+example :
+    let s : Ms := { required := false, hasAlias := true, defaultSet := true, defaultTruthy := true, extrasFactory := none, structFactory := some ['P', 'e', 't'], structList := true, useAnnotated := true, hasMeta := true, classVar := false, nullable := none, typeHasNull := false, unionOp := false }
+    msOptionalOK s = true ∧
+    Ms.memberNames s = [Dcg.Model.FieldText.nAnnotated, nMeta, nOptional, nfield, nConvert, nList, ['P', 'e', 't']] ∧
+    Ms.imports s = [nOptional, Dcg.Model.FieldText.nAnnotated, nfield, nConvert, nMeta] := by
+  decide
+
+open Dcg.Model.FieldStr Dcg.Proofs.FieldStr in
+/-- REFUTATION (known finding C02-F11, replayed on the real code by its witness document): a member that
+is not required, has a `Meta(...)` argument and is declared not nullable (`--strict-nullable` with a
+default) is written `Optional[Annotated[…]]`, and `Optional` is not among its imports. -/
+theorem msgspec_annotated_optional_unbound :
+    let s : Ms := { required := false, hasAlias := false, defaultSet := true, defaultTruthy := true, extrasFactory := none, structFactory := none, structList := false, useAnnotated := true, hasMeta := true, classVar := false, nullable := some false, typeHasNull := false, unionOp := false }
+    nOptional ∈ Ms.memberNames s ∧ nOptional ∉ Ms.imports s ∧ nOptional ∉ (Ms.factory s).names ∧ msOptionalOK s = false := by
+  decide
+
+open Dcg.Model.FieldStr Dcg.Proofs.FieldStr in
+theorem msgspec_field_names_bound_full_false : ¬ MsgspecFieldNamesBound := by
+  intro h
+  have hw := msgspec_annotated_optional_unbound
+  rcases h _ nOptional hw.1 with h1 | h1 | h1
+  · exact hw.2.1 h1
+  · exact hw.2.2.1 h1
+  · exact absurd h1 (by decide)
+
+open Dcg.Model.FieldStr Dcg.Proofs.FieldStr in
+/-- TypedDict: `NotRequired[…]` is written exactly when `typing.NotRequired` is among the imports -/
+theorem typeddict_field_names_bound (s : Td) : ∀ n ∈ Td.memberNames s, n ∈ Td.imports s := by
+  intro n hn; exact hn
 
 /-!
 What remains outside the theorems (tested end-to-end on every run): that the real import block
